@@ -11,4 +11,12 @@ CHECKS = {
         text='Bounded model checking by symbolic execution of the real wrapper/scope code: every signature shape x binding set x scope stack x argument split within the bound is a path (exhausted, CONFIRMED), and on each path the received arguments are proved equal to the reference overlay for ALL integer values at once.',
         note=X_NOTE,
         technique='CrossHair/z3 symbolic execution of gin_wrapper, _get_bindings, config_scope with symbolic values; exhaustive bounded shape space'),
+    'C10': dict(
+        text='Bounded model checking by symbolic execution of the real wrapper: every placement of REQUIRED (positional, keyword, signature default, **kwargs names, *args tail) x binding subset x scope within the bound is a path; on each the arguments received (or the RuntimeError and its ordered list of unfilled names) are proved equal to the reference for all integer values. Registration-time validation is explored over all allow/deny lists x 3 APIs.',
+        note=X_NOTE,
+        technique='CrossHair/z3 symbolic execution of gin_wrapper REQUIRED handling and _get_validated_required_kwargs; exhaustive bounded placement space'),
+    'C12': dict(
+        text='Inductive single-step bounded model checking of the lock automaton on the real code: from every (locked, bound) pre-state one arbitrary operation (bind, parse, register, finalize, clear, unlock_config with 6 body shapes incl. raising and nested) is executed symbolically and compared with the reference transition; finalize is explored over hook behaviours x spellings x config faults with symbolic hook values.',
+        note=X_NOTE + ' Values that Gin itself stringifies on an error path (config_str() inside two finalize error messages) are concrete.',
+        technique='CrossHair/z3 symbolic execution of finalize/unlock_config/bind_parameter/_make_configurable; inductive step over lock states'),
 }
